@@ -5,10 +5,10 @@ import fractions
 from .tyast import Ty, FieldM, ClassM, _serial
 from . import conds as C
 
-HASHABLE_LEAVES = ('int', 'float', 'str', 'bytes', 'none', 'bool', 'decimal', 'fraction', 'date', 'time',
+HASHABLE_LEAVES = ('cc', 'int', 'float', 'str', 'bytes', 'none', 'bool', 'decimal', 'fraction', 'date', 'time',
                    'datetime', 'path', 'lit', 'enum', 'sub')
 LEAVES = ('int', 'int', 'float', 'float', 'complex', 'bool', 'bool', 'str', 'str', 'bytes', 'bytearray', 'none',
-          'decimal', 'fraction', 'date', 'time', 'datetime', 'path', 'pattern', 'any', 'sub', 'lit', 'enum')
+          'decimal', 'fraction', 'date', 'time', 'datetime', 'path', 'pattern', 'any', 'sub', 'lit', 'enum', 'cc')
 CONTAINERS = ('list', 'list', 'seq', 'set', 'deque', 'tup', 'tup', 'dict', 'dict', 'counter', 'struct', 'union',
               'union', 'union', 'cond', 'tagged', 'dc', 'dc', 'dc', 'ndarray', 'vol')
 
@@ -139,7 +139,7 @@ def gen_type(rng, depth, lit_ok=True, hashable=False, allow=None, no_dc=False):
     if k == 'dc':
         return Ty('dc', spec=gen_class(rng, d))
     if k == 'ndarray':
-        return Ty('ndarray', dtype=rng.choice((None, 'int', 'float', 'float') if NDARRAY_ANY_LEAVES else ('int', 'float', 'float')))
+        return Ty('ndarray', dtype=rng.choice((None, 'int', 'float', 'float', 'bool', 'complex') if NDARRAY_ANY_LEAVES else ('int', 'float', 'float', 'bool')))
     if k == 'vol':
         # ValueOrList[T] is only unambiguous when T itself is not read from a sequence
         inner = gen_leaf(rng, False, allow) if rng.random() < 0.7 else Ty('dict', [Ty('str'), gen_leaf(rng, False, allow)])
@@ -168,7 +168,7 @@ def dedupe_members(ms):
 # ---------------------------------------------------------------------------------------------
 # dataclasses
 
-DEFAULTABLE = ('int', 'float', 'str', 'bool', 'none', 'bytes', 'decimal', 'fraction', 'lit', 'enum', 'path', 'date')
+DEFAULTABLE = ('cc', 'int', 'float', 'str', 'bool', 'none', 'bytes', 'decimal', 'fraction', 'lit', 'enum', 'path', 'date')
 
 
 def typed_default(ty, rng):
